@@ -63,8 +63,8 @@ class TravelCalculator:
         """Update known position of cover."""
         self._last_known_position = position
         self._last_known_position_timestamp = time.time()
-        if position == self._travel_to_position:
-            self._position_confirmed = True
+        # a later report that differs from the target lifts the confirmation again
+        self._position_confirmed = position == self._travel_to_position
 
     def stop(self) -> None:
         """Stop traveling."""
